@@ -20,6 +20,7 @@ import (
 // one call of a history
 type poolCall struct {
 	Kind   string      `json:"kind"` // oneshot | validator | param | header
+	NilSch bool        `json:"nil_schema,omitempty"` // the schema argument is nil (the API accepts it)
 	Schema *schemaCase `json:"schema,omitempty"`
 	Simple *simpleCase `json:"simple,omitempty"`
 }
@@ -88,6 +89,9 @@ func runCall(c *poolCall, recycle bool, reg strfmt.Registry) (o callOutcome) {
 		}
 		if reg == nil {
 			reg = caseRegistry(sc)
+		}
+		if c.NilSch {
+			s = nil
 		}
 		if c.Kind == "oneshot" && recycle {
 			e := validate.AgainstSchema(s, d, reg, caseOptions(sc)...)
